@@ -457,7 +457,7 @@ ELEM = {
     'cosh': (R((-2, 2)), {'global': algopy.cosh, 'method': lambda x: x.cosh()}, np.cosh),
     'tanh': (R((-2, 2)), {'global': algopy.tanh, 'method': lambda x: x.tanh()}, np.tanh),
     'sign': (AWAY0, {'global': algopy.sign, 'method': lambda x: x.sign()}, np.sign),
-    'absolute': (AWAY0, {'global': algopy.absolute, 'builtin': abs, 'method': lambda x: x.abs(), 'fabs': lambda x: x.fabs()},
+    'absolute': (AWAY0, {'global': algopy.absolute, 'class': UTPM.absolute, 'builtin': abs, 'method': lambda x: x.abs(), 'fabs': lambda x: x.fabs()},
                  np.absolute),
     'square': (R((-3, 3)), {'global': algopy.square, 'class': UTPM.square}, np.square),
     'negative': (R((-3, 3)), {'global': algopy.negative, 'operator': operator.neg}, np.negative),
@@ -507,13 +507,15 @@ def tiny_values(both_signs, zeros):
 
 
 @st.composite
-def elem_cases(draw, name):
+def elem_cases(draw, name, group='real'):
+    """group: 'real' (float64 / float32 / integer data), 'complex', 'tiny' - one bucket per (function, group), so that no
+    operand class depends on how Hypothesis happens to distribute a drawn mode over a small bucket"""
     D, P = draw(dims())
     s = draw(shapes())
     dom, forms, _ = ELEM[name]
     form = draw(st.sampled_from(sorted(forms)))
     case = {'op': name, 'form': form, 'params': {}}
-    mode = draw(st.sampled_from(['f', 'f', 'f', 'c', 'c', 'f32', 'int', 'tiny', 'tiny', 'tiny']))
+    mode = {'complex': 'c', 'tiny': 'tiny'}.get(group) or draw(st.sampled_from(['f', 'f', 'f', 'f32', 'int']))
     if mode == 'tiny':
         # compared element-wise RELATIVE to the NumPy value (a few ulp), see c10.cmp_ulp
         case['args'] = [draw(poly(D, P, s, tiny_values(*TINY[name]), mag=0.5))]
